@@ -19,6 +19,7 @@ package fieldmask
 import (
 	"errors"
 	"fmt"
+	"math"
 	"strconv"
 
 	"github.com/cloudwego/thriftgo/internal/utils"
@@ -196,6 +197,9 @@ func (cur *FieldMask) addPath(path string, curDesc *thrift_reflection.TypeDescri
 
 			var f *thrift_reflection.FieldDescriptor
 			if typ == pathTypeLitInt {
+				if iv := tok.val.Int(); iv > math.MaxInt32 || iv < math.MinInt32 {
+					return errDesc(curDesc, "field "+strconv.Itoa(iv)+" doesn't exist")
+				}
 				id := tok.val.Int32()
 				f = st.GetFieldById(id)
 				if f == nil {
